@@ -880,6 +880,7 @@ ILV_POOL = {
         {"kind": "ens", "shape": [2, 1, 2], "over": {"atom.label": "nonascii", "bond.btype": "Aromatic"}},
     ],
 }
+ILV_UNICODE_KEYS = ["β-pinene", "(−)-menthol / α", "", "𝛼-terpinéol.1"]  # 2-, 3-, 4-byte characters, blanks, slash, dot, the empty key
 ILV_BUFS = {"default": {}, "large": {"bufsize": 1_000_000}, "zero": {"bufsize": 0}}
 
 
@@ -933,7 +934,8 @@ def _ilv_one(libs, A, ic, enc, seed):
     objs = [build(A, s["kind"], tuple(s["shape"]), s["over"], seed) for s in specs]
     exps = [snapshot(o) for o in objs]
     confs = [s["kind"] == "conf" for s in specs]
-    allkeys = [f"key{i}" for i in range(len(pool))]
+    knames = ILV_UNICODE_KEYS if ic.get("keys") == "unicode" else [f"key{i}" for i in range(len(pool))]
+    allkeys = list(knames[: len(pool)])
     path = libs.new_path(lib, enc)
     ntr = 0
     outs = []
@@ -951,7 +953,7 @@ def _ilv_one(libs, A, ic, enc, seed):
         return "record-corrupted"
 
     def check_keys(stage, h):
-        want = sorted(f"key{j}" for j in stored)
+        want = sorted(allkeys[j] for j in stored)
         ks = sorted(h.keys())
         if ks != want or len(h) != len(want):
             return "key-listing-differs"
@@ -965,7 +967,7 @@ def _ilv_one(libs, A, ic, enc, seed):
         if sym:
             return sym
         for j in stored:
-            sym = check_obj(stage, j, h[f"key{j}"])
+            sym = check_obj(stage, j, h[allkeys[j]])
             if sym:
                 return sym
         return None
@@ -981,14 +983,14 @@ def _ilv_one(libs, A, ic, enc, seed):
                 doing[0] = "put" if o == "P" else ("probe" if o == "Q" else "get")
                 if o == "P":
                     j = len(stored)
-                    h[f"key{j}"] = objs[j]
+                    h[allkeys[j]] = objs[j]
                     stored.append(j)
                 elif o == "Q":
                     sym = check_keys("in-session-probe", h)
                     if sym:
                         return [sym], tuple(outs), ntr
                 else:
-                    sym = check_obj("in-session-get", o[1], h[f"key{o[1]}"])
+                    sym = check_obj("in-session-get", o[1], h[allkeys[o[1]]])
                     if sym:
                         return [sym], tuple(outs), ntr
             stage = "same-session-readback"
@@ -1034,13 +1036,13 @@ def eval_ilv(ctx, A, ic, seed, libs=None):
     ctx.outcome(("ilv", tuple(outs)))
     nput = sum(1 for o in ic["ops"] if o == "P")
     if nput >= 2 and any(o != "P" and o != "Q" for o in ic["ops"]):
-        ctx.nontrivial(("ilv", ic["lib"], ic.get("buf", "default"), bool(ic.get("rev")), repr(ic["ops"])))
+        ctx.nontrivial(("ilv", ic["lib"], ic.get("buf", "default"), bool(ic.get("rev")), ic.get("keys"), repr(ic["ops"])))
     cls = ilv_class(ic["ops"])
     common = [x for x in res["v2"] if x in res["v1"]]
     todo = [("any", x) for x in common] + [(enc, x) for enc in ("v2", "v1") for x in res[enc] if x not in common]
     for enc, sym in todo:
         ctx.violation(
-            f"interleave|{ic['lib']}|enc={enc}|buf={ic.get('buf', 'default')}|{cls}|{sym}",
+            f"interleave|{ic['lib']}|enc={enc}|buf={ic.get('buf', 'default')}{'|keys=unicode' if ic.get('keys') == 'unicode' else ''}|{cls}|{sym}",
             f"one writing session on one handle, ops {ic['ops']} (P = store next object, [G,j] = read key j, Q = contains/keys/len): {sym}",
             dict(ic, mode="interleave", enc=enc),
             repro=ilv_repro(ic),
@@ -1083,6 +1085,7 @@ def gen_ilv_cases(thorough):
         for ops in strings:
             if len(ops) <= L - 1:
                 out.append({"lib": lib, "ops": ops, "buf": "default", "rev": True})
+                out.append({"lib": lib, "ops": ops, "buf": "default", "keys": "unicode"})
     return out
 
 
@@ -1205,6 +1208,350 @@ def size_repro(name, lib):
             L.append(f"obj = ml.Molecule(['C'] * {n}); obj.coords = 0.0")
     cls = "MoleculeLibrary" if lib == "mlib" else "ConformerLibrary"
     L += [f"lib = ml.{cls}(p, readonly=False)", "with lib.writing(): lib['k'] = obj", "with lib.reading(): back = lib['k']", "print(back, back.coords.shape, len(str(back.attrib)))"]
+    return "\n".join(L)
+
+
+# -------------------------------------------------------------------------------------------------
+# key alphabet: the key a record is stored under is any str of <= 255 utf8 bytes
+# -------------------------------------------------------------------------------------------------
+KEY_ALPHABET = {
+    "ascii": "plain_key-1",
+    "utf8-2byte": "β-pinene",
+    "utf8-3byte": "(−)-menthol",
+    "utf8-4byte": "𝛼-pinene",
+    "utf8-mixed": "α-terpinéol −𝛼",
+    "blank-slash-dot": "dir/sub dir/file.v1.mlib ",
+    "empty": "",
+    "255-bytes-in-128-chars": "é" * 127 + "a",
+    "255-bytes-ascii": "k" * 255,
+    "prefix-a": "ab",
+    "prefix-b": "abc",
+    "prefix-c": "abcd",
+    "256-bytes-in-128-chars": "é" * 128,  # must be rejected, library unchanged
+    "256-bytes-ascii": "K" * 256,  # must be rejected, library unchanged
+}
+KEY_REJECTED = ("256-bytes-in-128-chars", "256-bytes-ascii")
+
+
+def gen_key_cases(thorough):
+    names = list(KEY_ALPHABET)
+    out = []
+    for lib in ("mlib", "clib"):
+        for enc in ("v2", "v1") if thorough else ("v2",):
+            for n in names:
+                out.append({"lib": lib, "enc": enc, "keys": [n]})
+            for a, b in itertools.permutations(names, 2):
+                out.append({"lib": lib, "enc": enc, "keys": [a, b]})
+            for r in range(len(names)):
+                out.append({"lib": lib, "enc": enc, "keys": names[r:] + names[:r]})
+            out.append({"lib": lib, "enc": enc, "keys": names[::-1]})
+        if not thorough:
+            for n in names:
+                out.append({"lib": lib, "enc": "v1", "keys": [n, "ascii"] if n != "ascii" else [n]})
+    return out
+
+
+def _key_one(libs, A, kc, seed):
+    """-> (symptom or None, class of the key concerned, outcome, transitions)"""
+    lib, enc = kc["lib"], kc["enc"]
+    pool = ILV_POOL[lib]
+    path = libs.new_path(lib, enc)
+    stored = {}  # key -> (snapshot, conf)
+    ntr = 0
+    concerned = "+".join(sorted(set(kc["keys"])))
+
+    def verify(h, stage):
+        ks = sorted(h.keys())
+        if ks != sorted(stored) or len(h) != len(stored):
+            return f"key-listing-differs", concerned
+        for name in kc["keys"]:
+            k = KEY_ALPHABET[name]
+            if (k in h) != (k in stored):
+                return "key-listing-differs", name
+        for name in kc["keys"]:
+            k = KEY_ALPHABET[name]
+            if k not in stored:
+                continue
+            try:
+                g = snapshot(h[k])
+            except Exception:
+                return "record-corrupted", name
+            if compare(stored[k][0], g, enc, conf_source=stored[k][1]):
+                return "record-corrupted", name
+        return None
+
+    try:
+        h = libs.open(lib, path, readonly=False)
+        check_version(h, enc)
+        with h.writing(timeout=10):
+            for n, name in enumerate(kc["keys"]):
+                k = KEY_ALPHABET[name]
+                spec = pool[(n + seed) % len(pool)]
+                o = build(A, spec["kind"], tuple(spec["shape"]), spec["over"], seed, tag=f"#{n}")
+                ntr += 1
+                if name in KEY_REJECTED:
+                    try:
+                        h[k] = o
+                    except Exception:
+                        pass
+                    else:
+                        return "oversize-key-accepted", name, ("acc",), ntr
+                    r = verify(h, "after-rejected-put")
+                    if r:
+                        if r[1] == name or r[0] == "key-listing-differs":
+                            return "rejected-put-changed-the-library", name, ("rej",), ntr
+                        return r[0], r[1], ("rej-other",), ntr
+                else:
+                    try:
+                        h[k] = o
+                    except Exception:
+                        return "put-raised", name, ("put",), ntr
+                    stored[k] = (snapshot(o), spec["kind"] == "conf")
+            r = verify(h, "same-session")
+            if r:
+                return r[0], r[1], ("same",), ntr
+        with h.reading(timeout=10):
+            r = verify(h, "new-session")
+        if r:
+            return r[0], r[1], ("new",), ntr
+        h2 = libs.open(lib, path, readonly=True)
+        with h2.reading(timeout=10):
+            r = verify(h2, "fresh-handle")
+        if r:
+            return r[0], r[1], ("fresh",), ntr
+        h3 = libs.open(lib, path, readonly=False)
+        with h3.writing(timeout=10):
+            r = verify(h3, "fresh-writable-handle")
+        if r:
+            return r[0], r[1], ("freshw",), ntr
+        return None, concerned, ("ok", len(stored)), ntr + 4 * len(stored)
+    except HarnessError:
+        raise
+    except Exception as e:
+        return "record-corrupted", concerned, ("exc", type(e).__name__), ntr
+    finally:
+        libs.done()
+
+
+def eval_key(ctx, A, kc, seed, libs=None):
+    libs = libs or Libs(ctx.scratch)
+    sym, kcls, out, ntr = _key_one(libs, A, kc, seed)
+    ctx.count(evaluations=1, states=1, transitions=ntr, traces=1)
+    ctx.outcome(("key", kc["lib"], kc["enc"], tuple(kc["keys"]) if len(kc["keys"]) <= 2 else len(kc["keys"]), out))
+    if len(kc["keys"]) >= 2:
+        ctx.nontrivial(("key", kc["lib"], kc["enc"], tuple(kc["keys"])))
+    if sym:
+        if "+" in kcls:
+            kcls = "several"
+        ctx.violation(
+            f"keys|{kc['lib']}|key={kcls}|{sym}",
+            f"records stored under the keys {kc['keys']} (in this order, one writing session), read in the same session, a new session and through fresh handles: {sym} (key class {kcls})",
+            dict(kc, mode="keys"),
+            repro=key_repro(kc),
+        )
+
+
+def key_repro(kc):
+    cls = "MoleculeLibrary" if kc["lib"] == "mlib" else "ConformerLibrary"
+    mk = "ml.Molecule(['C'] * (n + 1), name=f'obj{n}')" if kc["lib"] == "mlib" else "ml.ConformerEnsemble(['C'] * (n + 1), n_conformers=2, name=f'obj{n}')"
+    L = ["import os, molli as ml", f"p = '/tmp/c01_keys.{kc['lib']}'", "if os.path.exists(p): os.unlink(p)", f"def mk(n): return {mk}", f"keys = {[KEY_ALPHABET[k] for k in kc['keys'][:4]]!r}", f"lib = ml.{cls}(p, readonly=False)", "with lib.writing():", "    for n, k in enumerate(keys):", "        try: lib[k] = mk(n)", "        except Exception as e: print('put', repr(k[:12]), type(e).__name__)", "    for n, k in enumerate(keys):", "        if k in lib: print('same session', repr(k[:12]), lib[k].name)", f"new = ml.{cls}(p)", "with new.reading():", "    print(sorted(new.keys()))", "    for k in sorted(new.keys()): print('fresh handle', repr(k[:12]), new[k].name)"]
+    return "\n".join(L)
+
+
+# -------------------------------------------------------------------------------------------------
+# how the file came to be: pre-state of the path x constructor options; objects carrying v2-only
+# fields; read back in the same session, a new session, through fresh handles; compared by the
+# encoding the FILE has (v1 only for a file that carries the v1 magic)
+# -------------------------------------------------------------------------------------------------
+ORIGIN_PRE = ["absent", "empty-file", "garbage-file", "v2-library", "v1-library", "bundled-v1-library"]
+
+
+def gen_origin_cases(thorough):
+    out = []
+    for lib in ("mlib", "clib"):
+        for pre in ORIGIN_PRE:
+            if pre == "bundled-v1-library" and lib != "mlib":
+                continue
+            for overwrite in (False, True):
+                if pre in ("empty-file", "garbage-file") and not overwrite:
+                    continue  # not a library: nothing is demanded of opening it as one
+                if pre == "bundled-v1-library" and overwrite:
+                    continue
+                for h1 in (None, "custom"):
+                    for comment in (None, "text"):
+                        if (h1 or comment) and pre in ("v2-library", "v1-library", "bundled-v1-library") and not overwrite:
+                            continue  # header options only matter when the file is created
+                        for ro_first in (False, True) if pre == "bundled-v1-library" else (False,):
+                            out.append({"lib": lib, "pre": pre, "overwrite": overwrite, "h1": h1, "comment": comment, "readonly": ro_first})
+    return out
+
+
+def _file_enc(path):
+    with open(path, "rb") as f:
+        return "v1" if f.read(16).startswith(b"ML10Library") else "v2"
+
+
+def _origin_one(libs, A, oc, seed):
+    """-> (stage:symptom or None, outcome, transitions)"""
+    import shutil
+
+    lib = oc["lib"]
+    cls = LIBCLS[lib]
+    path = libs.dir / f"origin.{lib}"
+    if path.exists():
+        path.unlink()
+    spec = REGET_OBJS[0] if lib == "mlib" else REGET_OBJS[3]
+    mk = lambda tag: build(A, spec["kind"], tuple(spec["shape"]), spec["over"], seed, tag=tag)
+    old = mk("#old")
+    news = [mk("#new0"), mk("#new1")]
+    pre = oc["pre"]
+    ntr = 0
+    stage = "prepare"
+    try:
+        if pre == "empty-file":
+            path.write_bytes(b"")
+        elif pre == "garbage-file":
+            path.write_bytes(b"this is not a molli library \x00\xff" * 7)
+        elif pre in ("v2-library", "v1-library"):
+            if pre == "v1-library":
+                UKVFile(path, mode="x", h1=b"ML10Library").close()
+            h0 = libs.open(lib, path, readonly=False)
+            with h0.writing(timeout=10):
+                h0["old"] = old
+            libs.done()
+        elif pre == "bundled-v1-library":
+            shutil.copy(ml.files.fletcher_phosphoramidite_cats_legacy_v1 if hasattr(ml.files, "fletcher_phosphoramidite_cats_legacy_v1") else Path(ml.files.__file__).parent / "fletcher_phosphoramidite_cats.mlib", path)
+    except Exception as e:
+        raise HarnessError(f"cannot prepare {oc}: {type(e).__name__}: {e}")
+    kw = {}
+    if oc["overwrite"]:
+        kw["overwrite"] = True
+    if oc["h1"]:
+        kw["h1"] = b"MyOwnLibrary"
+    if oc["comment"]:
+        kw["comment"] = "a comment é"
+    keeps_old = pre in ("v2-library", "v1-library", "bundled-v1-library") and not oc["overwrite"]
+    stored = {}
+    try:
+        if oc["readonly"]:
+            stage = "read-only-handle"
+            hro = libs.open(lib, path, readonly=True)
+            with hro.reading(timeout=10):
+                ks = sorted(hro.keys())
+                if not ks:
+                    return f"{stage}:key-listing-differs", ("ro",), ntr
+                for k in ks[:6]:
+                    o = hro[k]
+                    ntr += 1
+                    if not isinstance(o, Molecule) or o.n_atoms < 1:
+                        return f"{stage}:object-differs", ("ro",), ntr
+        stage = "construct"
+        h = libs.open(lib, path, readonly=False, **kw)
+        fenc = _file_enc(path)
+        if pre in ("absent", "empty-file", "garbage-file") or oc["overwrite"]:
+            if fenc != "v2":
+                return "construct:created-file-is-not-a-current-library", ("magic",), ntr
+
+        def verify(hh, stg, before=None):
+            want = set(stored) | (before or set())
+            if set(hh.keys()) != want or len(hh) != len(want):
+                return f"{stg}:key-listing-differs"
+            for k, (exp, enc_at_put) in stored.items():
+                g = snapshot(hh[k])
+                if compare(exp, g, fenc):
+                    return f"{stg}:object-differs"
+            for k in sorted(before or ())[:4]:
+                hh[k]  # an old record must decode
+            return None
+
+        stage = "same-session"
+        with h.writing(timeout=10):
+            before = set(h.keys()) if keeps_old else set()
+            if keeps_old and not before:
+                return "same-session:key-listing-differs", ("old",), ntr
+            if not keeps_old and h.keys():
+                return "same-session:key-listing-differs", ("notempty",), ntr
+            if pre in ("v2-library", "v1-library") and keeps_old:
+                g = snapshot(h["old"])
+                if compare(snapshot(old), g, fenc):
+                    return "same-session:object-differs", ("oldobj",), ntr
+            for n, o in enumerate(news):
+                h[f"new{n}"] = o
+                stored[f"new{n}"] = (snapshot(o), fenc)
+                ntr += 1
+            r = verify(h, stage, before)
+            if r:
+                return r, ("same",), ntr
+        stage = "new-session"
+        with h.reading(timeout=10):
+            r = verify(h, stage, before)
+        if r:
+            return r, ("new",), ntr
+        stage = "fresh-handle"
+        h2 = libs.open(lib, path, readonly=True)
+        with h2.reading(timeout=10):
+            r = verify(h2, stage, before)
+        if r:
+            return r, ("fresh",), ntr
+        stage = "fresh-writable-handle"
+        h3 = libs.open(lib, path, readonly=False)
+        with h3.writing(timeout=10):
+            r = verify(h3, stage, before)
+        if r:
+            return r, ("freshw",), ntr
+        return None, ("ok", fenc, len(before)), ntr + 8
+    except HarnessError:
+        raise
+    except Exception as e:
+        return f"{stage}:raised", ("exc", stage, type(e).__name__), ntr
+    finally:
+        libs.done()
+
+
+def eval_origin(ctx, A, oc, seed, libs=None, failed_base=None):
+    libs = libs or Libs(ctx.scratch)
+    sym, out, ntr = _origin_one(libs, A, oc, seed)
+    # header options (h1, comment) are varied on top of every (pre-state, overwrite) combination: when
+    # the combination already fails without them, the variants are the same finding
+    base = (oc["lib"], oc["pre"], oc["overwrite"], oc["readonly"])
+    if failed_base is not None and sym:
+        if failed_base.get((base, None)) == sym and (oc["h1"] or oc["comment"]):
+            sym = None
+        elif oc["comment"] and failed_base.get((base, oc["h1"])) == sym:
+            sym = None
+        elif not oc["comment"]:
+            failed_base[(base, oc["h1"])] = sym
+    ctx.count(evaluations=1, states=1, transitions=ntr, traces=1)
+    ctx.outcome(("origin", out))
+    ctx.nontrivial(("origin", oc["lib"], oc["pre"], oc["overwrite"], oc["h1"], oc["comment"], oc["readonly"]))
+    if sym:
+        opts = "+".join([x for x, on in (("overwrite", oc["overwrite"]), ("h1", oc["h1"]), ("comment", oc["comment"]), ("readonly-first", oc["readonly"])) if on]) or "default"
+        ctx.violation(
+            f"origin|{oc['lib']}|pre={oc['pre']}|{opts}|{sym}",
+            f"path state {oc['pre']}, library constructed with {opts}, two objects with attrib / formal charges stored and read back (same session, new session, fresh handles): {sym}",
+            dict(oc, mode="origin"),
+            repro=origin_repro(oc),
+        )
+
+
+def origin_repro(oc):
+    cls = "MoleculeLibrary" if oc["lib"] == "mlib" else "ConformerLibrary"
+    mk = "ml.Molecule(['C', 'H'], name='obj')" if oc["lib"] == "mlib" else "ml.ConformerEnsemble(['C', 'H'], n_conformers=2, name='obj')"
+    L = ["import os, shutil, molli as ml", "from molli.storage.ukvfile import UKVFile", f"p = '/tmp/c01_origin.{oc['lib']}'", "if os.path.exists(p): os.unlink(p)", f"def mk(): o = {mk}; o.coords = 1.0; o.attrib = {{'a': 1}}; o.atoms[0].formal_charge = 1; return o"]
+    pre = oc["pre"]
+    if pre == "empty-file":
+        L.append("open(p, 'wb').close()")
+    elif pre == "garbage-file":
+        L.append("open(p, 'wb').write(b'this is not a molli library' * 7)")
+    elif pre in ("v2-library", "v1-library"):
+        if pre == "v1-library":
+            L.append("UKVFile(p, mode='x', h1=b'ML10Library').close()    # a legacy (v1) library")
+        L.append(f"old = ml.{cls}(p, readonly=False)")
+        L.append("with old.writing(): old['old'] = mk()")
+    elif pre == "bundled-v1-library":
+        L.append("shutil.copy(os.path.join(os.path.dirname(ml.__file__), 'files', 'fletcher_phosphoramidite_cats.mlib'), p)")
+    kw = "".join([", overwrite=True" if oc["overwrite"] else "", ", h1=b'MyOwnLibrary'" if oc["h1"] else "", ", comment='a comment'" if oc["comment"] else ""])
+    L += [f"lib = ml.{cls}(p, readonly=False{kw})", "with lib.writing():", "    lib['new'] = mk()", "    r = lib['new']; print('same session :', r.attrib, r.atoms[0].formal_charge)", f"new = ml.{cls}(p)", "with new.reading():", "    r = new['new']; print('fresh handle :', r.attrib, r.atoms[0].formal_charge)   # expected {'a': 1} 1", "print(open(p, 'rb').read(12))"]
     return "\n".join(L)
 
 
@@ -1937,6 +2284,15 @@ def _part(ctx, part):
     kind, payload = part
     if kind == "cases":
         eval_cases(ctx, A, payload, ctx.seed)
+    elif kind == "origin":
+        libs = Libs(ctx.scratch)
+        failed_base = {}
+        for oc in payload:
+            eval_origin(ctx, A, oc, ctx.seed, libs, failed_base)
+    elif kind == "keys":
+        libs = Libs(ctx.scratch)
+        for kc in payload:
+            eval_key(ctx, A, kc, ctx.seed, libs)
     elif kind == "size":
         for name in payload:
             eval_size(ctx, A, name, ctx.seed)
@@ -1980,6 +2336,8 @@ def run(ctx):
         "a Conformer view stored in a MoleculeLibrary reads back as a Molecule with the conformer's fields",
         "objects are built by assigning record-level and atom fields after construction and by appending explicit Bond objects (never connect()), so that the stored object holds exactly the stated combination; bond sequences are compared in order and direction, including several bonds over one atom pair and a bond from an atom to itself; atoms of an ensemble are given through an atom list (the 0-atom ensemble through n_atoms=0)",
         "when v2 and v1 fail on the same case with the same symptom the violation is reported once with enc=any",
+        "a library key is any str of at most 255 utf8 bytes (non-ASCII, blanks, slashes, the empty string - all accepted by the repaired tree); a longer key is rejected and leaves the library unchanged",
+        "a library file that molli creates (absent path, or overwrite=True on anything) is a current (v2) library whatever was at the path and whatever header options (h1, comment) are given: everything stored in it reads back with all v2 fields in the same session, a new session and through default-constructed handles; only a file that carries the v1 magic is compared on the v1 schema; opening an empty or garbage file WITHOUT overwrite is not covered",
         "several library objects on different paths may be in writing() at the same time in one process (sessions nest per path), with any write buffer: afterwards each file holds exactly what was stored through its own handle",
         "a pass over items()/values()/keys() may be interleaved with other reads of the same handle; inserting a record during a pass may end that pass with RuntimeError (as for a dict - this is what the repaired tree does) but never hands out a wrong pair, and the record is stored",
         "repeated retrieval: an object read from a library is the caller's own (changing it in place must not change what any later retrieval of the same record returns - same session, new session, new handle, a byte-identical record under another key or in another file, items()); likewise changing the source object after it was stored does not change the stored record, and storing it again stores its new state",
@@ -2033,22 +2391,28 @@ def run(ctx):
     parts = [("size", [n]) for n in big] + [("size", [n for n in sizes if n not in big])]
     parts += [("cases", cases[i::nchunk]) for i in range(nchunk)]
     parts = [p for p in parts if p[1]]
-    # interleavings: the short strings first, in the master, in a fixed order (a defect that shows in
-    # a short string is then always kept with the same, shortest, counterexample); the rest in parts
-    short = [c for c in ilvs if len(c["ops"]) <= 4]
-    libs0 = Libs(ctx.scratch)
-    for c in short:
-        eval_ilv(ctx, A, c, ctx.seed, libs0)
-    long_ = [c for c in ilvs if len(c["ops"]) > 4]
+    # The smallest cases of every sequence-like dimension run FIRST, each dimension as one part (one
+    # worker, fixed order); their result is merged before the big fan-out starts, so a defect that
+    # shows in a small case is always kept with the same, smallest, counterexample.
     nl = 16 if thorough else 8
-    parts += [("ilv", long_[i::nl]) for i in range(nl) if long_[i::nl]]
-    # several libraries at once / disturbed passes: the smallest cases first, in the master
     multis = gen_multi_cases(thorough)
     gens = gen_gen_cases(thorough)
-    for c in [c for c in multis if len(c["order"]) <= 4]:
-        eval_multi(ctx, A, c, ctx.seed, libs0)
-    for c in [c for c in gens if sum(1 for x in c["d"] if x) <= 1]:
-        eval_gen(ctx, A, c, ctx.seed, libs0)
+    keyc = gen_key_cases(thorough)
+    origins = gen_origin_cases(thorough)
+    first = [
+        ("ilv", [c for c in ilvs if len(c["ops"]) <= 4]),
+        ("multi", [c for c in multis if len(c["order"]) <= 4]),
+        ("gen", [c for c in gens if sum(1 for x in c["d"] if x) <= 1]),
+        ("keys", [c for c in keyc if len(c["keys"]) == 1]),
+        ("origin", origins),
+    ]
+    ctx.pmap(_part, first)
+    long_ = [c for c in ilvs if len(c["ops"]) > 4]
+    parts += [("ilv", long_[i::nl]) for i in range(nl) if long_[i::nl]]
+    k_rest = [c for c in keyc if len(c["keys"]) > 1]
+    k_rest.sort(key=lambda c: len(c["keys"]))
+    parts += [("keys", k_rest[i::nl]) for i in range(nl) if k_rest[i::nl]]
+    ctx.bound.update({"key_alphabet": list(KEY_ALPHABET), "key_cases": len(keyc), "file_origin_cases": len(origins)})
     m_rest = [c for c in multis if len(c["order"]) > 4]
     g_rest = [c for c in gens if sum(1 for x in c["d"] if x) > 1]
     parts += [("multi", m_rest[i::nl]) for i in range(nl) if m_rest[i::nl]]
@@ -2064,6 +2428,12 @@ def replay(ctx, case):
     if case.get("mode") == "sequence":
         eval_seq(ctx, A, case, ctx.seed)
         return
+    if case.get("mode") == "keys":
+        eval_key(ctx, A, {k: v for k, v in case.items() if k != "mode"}, ctx.seed)
+        return
+    if case.get("mode") == "origin":
+        eval_origin(ctx, A, {k: v for k, v in case.items() if k != "mode"}, ctx.seed)
+        return
     if case.get("mode") == "multilib":
         eval_multi(ctx, A, {k: v for k, v in case.items() if k != "mode"}, ctx.seed)
         return
@@ -2071,7 +2441,7 @@ def replay(ctx, case):
         eval_gen(ctx, A, {k: v for k, v in case.items() if k != "mode"}, ctx.seed)
         return
     if case.get("mode") == "interleave":
-        eval_ilv(ctx, A, {k: v for k, v in case.items() if k in ("lib", "ops", "buf", "rev")}, ctx.seed)
+        eval_ilv(ctx, A, {k: v for k, v in case.items() if k in ("lib", "ops", "buf", "rev", "keys")}, ctx.seed)
         return
     if case.get("mode") == "reget":
         eval_reget(ctx, A, {"mode": "reget", "spec": case["spec"], "route": case["route"], "n": case.get("n", 0)}, ctx.seed)
